@@ -1639,7 +1639,6 @@ func ruleOPT16(c *Ctx) {
 	c.Check(bad == "", "GoValueNode.CallFunction / arity pre-checks agree with reflect's rule", p.InstrPos(callSite), fmt.Sprintf("%d arity pre-check(s); reflect's own check applies and its panic is contained", nChecks), bad+": a variadic fact method or built-in called with only its fixed arguments (documented: zero or more values) is rejected")
 }
 
-
 // asg2AppendReachesTheFact (D41): reflect.Append yields a new slice value. The Go back end sets it into the addressable
 // value it wraps; a JSON node wraps a copy of what the enclosing object or array holds, so the longer slice has to be put
 // back there, or `J.arr.Append(7)` changes a node nobody keeps. Decided: in each back end's AppendValue the result of
